@@ -334,3 +334,42 @@ def run(ctx):
         m.rel,
         rj9.lineno,
     )
+
+    # ---- C12.10 a remembered failure is not replayed once the failing code has changed ----------------------------
+    # catch() persists `recover(error)` through scheduler.set_cache under the eval hash of its own arguments.  Expression arguments hash by task
+    # *name* and argument values, so the key is the same after the failing task has been edited: a later execution replays the remembered
+    # failure and the repaired task never runs.  Either the recover arm is not persisted, or its key / validity covers the code that failed
+    # (a task hash, the failed call's call hash or subtree task set).
+    r10 = ctx.rule("C12.10", "catch does not persist the recover arm under a key that ignores the code of the failed call", floor=1)
+    cfn = m.funcs.get("catch")
+    orc = m.funcs.get("catch.on_recover")
+    if cfn is None:
+        raise AnalysisError("catch not found", "catch")
+    persists = orc is not None and any(last_attr(c) == "set_cache" for c in calls_in(orc))
+    code_aware = False
+    if persists:
+        keyvars = set()
+        for c in calls_in(orc):
+            if last_attr(c) == "set_cache" and c.args and isinstance(c.args[0], ast.Name):
+                keyvars.add(c.args[0].id)
+        work = set(keyvars)
+        seen10 = set()
+        while work:
+            v = work.pop()
+            if v in seen10:
+                continue
+            seen10.add(v)
+            for a in ast.walk(cfn):
+                if isinstance(a, ast.Assign) and any(v in {n.id for n in ast.walk(t) if isinstance(n, ast.Name)} for t in a.targets):
+                    t10 = src(a.value)
+                    if any(tok in t10 for tok in ("task_hash", ".task.hash", "call_hash", "subtree", "task_hashes")):
+                        code_aware = True
+                    work |= {n.id for n in ast.walk(a.value) if isinstance(n, ast.Name)} - seen10
+    r10.check(
+        (not persists) or code_aware,
+        f"{m.rel}:catch.on_recover:persists-recovery-by-expression-hash",
+        "catch.on_recover stores recover(error) in the backend cache under hash_args_eval(catch, (expr, ...)): the expression hash names tasks but not their code, so after the failing "
+        "task is fixed a later execution replays the remembered failure (main(x) = catch(flaky(x), ValueError, recover): run, fix flaky, run again -> still the recovery, flaky never runs)",
+        m.rel,
+        (orc or cfn).lineno,
+    )
